@@ -4,7 +4,7 @@ from translators import tr_c04
 
 PID = "C04"
 CLAIM = True
-MANIFEST_TEXT = ("33 Lean 4 theorems about a two-layer model of Dune::RemoteIndices.  Per-rank layer (merge-join unpackIndices with "
+MANIFEST_TEXT = ("39 Lean 4 theorems about a two-layer model of Dune::RemoteIndices.  Per-rank layer (merge-join unpackIndices with "
                  "rewind and fromOurSelf rule, two-list unpackIndices, the four unpackCreateRemote cases, self message, messages "
                  "of the ring predecessors or of the hinted neighbours in any arrival order), for every process count P>=1, "
                  "every decomposition with at most one entry per global index and set, one or two index sets per rank (also "
@@ -37,10 +37,23 @@ MANIFEST_TEXT = ("33 Lean 4 theorems about a two-layer model of Dune::RemoteIndi
                  "probe order, for five global index types (int, long, bigunsignedint<24>, bigunsignedint<40>, "
                  "std::pair<int,int>, with values that need every digit of the MPI datatype) and on MPI_COMM_WORLD, a "
                  "duplicate, a renumbered communicator or a proper sub-communicator (the left-out processes rebuild on the "
-                 "complement at the same time); the harness oracle recomputes the set definition from the decomposition.")
+                 "complement at the same time); the harness oracle recomputes the set definition from the decomposition.  "
+                 "Round four: how index pairs come into being and where they lie.  The three constructors of ParallelLocalIndex "
+                 "(member-initialiser lists, delegating constructors resolved with the declaration's default arguments), "
+                 "operator=(size_t), setAttribute and the getters are regenerated from plocalindex.hh; every way of making an "
+                 "entry that the harness uses (3-argument constructor; (attribute,isPublic) constructor + assignment; default "
+                 "isPublic argument / default constructor + setAttribute; add(global) = IndexPair(global) + assignment; "
+                 "setLocal) yields the pair asked for (localindex_variants_agree; gen_pair_facts for the IndexPair / add "
+                 "statements read from indexset.hh).  The index sets' storage is an ArrayList of separately allocated chunks "
+                 "of N pairs: chunked_storage (chunks non-empty, <= N, concatenation = the set, all N, all sizes), pack_chunked "
+                 "(packEntries' walk with the MPI_Pack count read from the source packs exactly the published pairs and never "
+                 "leaves a chunk, for every N and size), announced_count_is_packed_count (size()/noPublic() as read from the "
+                 "source = number of packed pairs), unpack_one_per_call.  The harness instantiates ParallelIndexSet with N = "
+                 "100, 1, 3, 8 and generates sets of k*N-1 .. k*N+2 entries (k = 1..3, also for N = 100).")
 MANIFEST_NOTE = ("Trusted: Lean kernel (+propext/Classical.choice/Quot.sound), the hand-written model's fidelity (differential "
-                 "runs only, bounded: P<=8, <=70 globals per case), tools/translators/tr_c04.py (expression-level reading of "
-                 "22 decisions/formulas and 10 statement-level facts), harness oracle, g++/ASan/UBSan, OpenMPI (reliable, pairwise FIFO; MPI_Pack layout "
+                 "runs only, bounded: P<=8, <=302 globals per case), tools/translators/tr_c04.py (expression-level reading of "
+                 "26 decisions/formulas/counts, 10 statement-level facts of remoteindices.hh, the 3 constructors + 2 mutators + 3 getters "
+                 "of plocalindex.hh and 5 statement-level facts of indexset.hh), harness oracle, g++/ASan/UBSan, OpenMPI (reliable, pairwise FIFO; MPI_Pack layout "
                  "exercised for five global index types, not modelled: the model's global indices are integers and only their order "
                  "is used).  Hypotheses: hints symmetric and naming another rank on every rank, or absent on "
                  "every rank (anything else deadlocks in MPI; modelled as `buildAll = none`, not executed); all ranks take "
@@ -62,7 +75,10 @@ HARNESS = dict(
     mpi=True,
     repo_sources=["dune/common/exceptions.cc", "dune/common/stdstreams.cc"],
 )
-RULE = ("cases: random distributed histories for P ranks: each global index (<=14 per case, one case in 14 with 20..70, small "
+RULE = ("cases: random distributed histories for P ranks: each global index (<=14 per case, one case in 14 with 20..70, one in "
+        "8-16 'huge': k*N-1..k*N+2 globals, k=1..3, all of them on one rank, N = chunk size of ParallelIndexSet = 100 or "
+        "(g=int, half of the cases) 1, 3, 8; every add names one of five ways of constructing the local index / index "
+        "pair, mostly one way per case; small "
         "range so ranks overlap) is placed on a random non-empty subset of the ranks per set with random attribute/public "
         "flag/local index; systems with one set, two sets, mixed, or one set with repeated globals; includeSelf "
         "none/all/random; five-argument or default constructor + setIndexSets; ring or symmetric hints (superset of the "
@@ -78,7 +94,8 @@ RULE = ("cases: random distributed histories for P ranks: each global index (<=1
         "processes renumbered (15%), sub-communicator of P-1 or P-2 processes in any order (20%); distinct = distinct op lines; non-trivial = oracle compared at least one non-empty expected list or an "
         "isSynced answer after a rebuild")
 ASSUMPTIONS = [
-    "the Lean model (lean/DuneVerif/Model/C04.lean per-rank layer, Model/C04F.lean faithful layer) is hand-written; its fidelity to remoteindices.hh rests on this differential run (P <= 8) and, for 22 one-line decisions/formulas, on the translator tools/translators/tr_c04.py",
+    "the Lean model (lean/DuneVerif/Model/C04.lean per-rank layer, Model/C04F.lean faithful layer) is hand-written; its fidelity to remoteindices.hh rests on this differential run (P <= 8) and, for 26 one-line decisions/formulas/counts, on the translator tools/translators/tr_c04.py; the constructors/mutators/getters of ParallelLocalIndex (Gen/C04L.lean) are regenerated",
+    "the chunked storage of ParallelIndexSet (ArrayList<IndexPair,N>) is modelled as a list of chunks (Model/C04L.lean: chunked, packWalk); arraylist.hh itself is not read by the translator — that iteration over an ArrayList visits the elements in order is exercised (N = 1, 3, 8, 100; sizes on every chunk boundary), not proved",
     "MPI is trusted: reliable, pairwise FIFO; MPI_Pack/MPI datatype layout of IndexPair is exercised (global index types int, long, bigunsignedint<24>, bigunsignedint<40>, std::pair<int,int>), not modelled: the model treats global indices as integers of which only the order matters",
     "the communicator only renumbers the processes (the model has no communicator); exercised with MPI_COMM_WORLD, a duplicate, renumbered and proper sub-communicators",
     "theorems assume at most one entry per global index and index set on a rank (NoDupGlobals); repeated globals are covered by unpack_spec / rebuild_spec_repeated (one-set systems) and the differential runs",
@@ -87,19 +104,19 @@ ASSUMPTIONS = [
     "the model describes the tree with fixes/C04_localdest_index.patch and fixes/C04_oneset_receives_twoset.patch applied (/repo commits aadf5bf, 6f17323)",
 ]
 TRUSTED = ["g++/libstdc++, ASan/UBSan, OpenMPI", "harness/mpi_c04.cc (generator, executor, set-definition oracle) + harness/pmpi_sched.cc",
-           "tools/translators/tr_c04.py (locating and parsing 22 expressions / statement lists and 10 statement-level facts of remoteindices.hh)",
+           "tools/translators/tr_c04.py (locating and parsing 26 expressions / statement lists and 10 statement-level facts of remoteindices.hh, the constructors / operator= / setAttribute / getters of plocalindex.hh, 5 statement-level facts of indexset.hh)",
            "Driver/C04.lean parsing/printing and the harness-protocol index-set bookkeeping"]
 
 
 def batches(tier, seed):
     res = []
     if tier == "quick":
-        plan = [(1, 400), (2, 700), (3, 700), (4, 700)]
+        plan = [(1, 300), (2, 650), (3, 650), (4, 500)]
         for (np, n) in plan:
             res.append(dict(args=["--seed", str(seed * 1000 + np), "--cases", str(n), "--tier", tier, "--case-timeout", "60"],
                             np=np, tag="np%d" % np, timeout=900))
         # one batch with the PMPI scheduler switched off (plain MPI order)
-        res.append(dict(args=["--seed", str(seed * 1000 + 77), "--cases", "300", "--tier", tier, "--sched", "0",
+        res.append(dict(args=["--seed", str(seed * 1000 + 77), "--cases", "200", "--tier", tier, "--sched", "0",
                               "--case-timeout", "60"], np=3,
                         tag="np3_nosched", timeout=900))
     else:
